@@ -101,6 +101,10 @@ mod version;
 #[cfg(test)]
 mod tests;
 
+#[cfg(fast_qr_verif)]
+#[doc(hidden)]
+pub mod verif;
+
 #[cfg(target_arch = "wasm32")]
 mod wasm;
 
